@@ -336,10 +336,14 @@ def build(ctx):
             ctx.unit(f"monotone[{mname},{'many' if many else 'one'}]", lambda mname=mname, many=many: unit_monotone(ctx, mname, many))
     for mname in MATCH_METRICS:
         ctx.unit(f"scorer[{mname}]", lambda mname=mname: unit_scorer(ctx, mname))
+    # match_instances = _match_instances followed by the relabelling of the prediction (C04), regenerated here
+    include_stage(ctx, "C04")
     ctx.add_bounded("c03-enum", "c03.bounded")
 
 
 def concretise(ctx, o, r):
+    if (o.info or {}).get("stage"):
+        return stage_concretise(ctx, o, r)
     m = r.get("model") or {}
     if o.replay == "c03.beats":
         ev = m
